@@ -7,6 +7,8 @@ import (
 	"math"
 	"os"
 	"sort"
+	"strconv"
+	"strings"
 
 	"github.com/zalf-rpm/Hermes2Go/hermes"
 )
@@ -32,22 +34,32 @@ func gwRef(dates []int, vals []float64, q int) (kind string, lo, hi, lin float64
 
 func gwOracle(where string, dates []int, vals []float64, q int, level float64, err error) {
 	if err != nil {
-		oracleFail("gw-series:%s:error-on-nonempty-series q=%d dates=%v err=%v", where, q, dates, err)
+		c20Fail("gw-series:"+where+":error-on-nonempty-series", "q=%d dates=%v err=%v", q, dates, err)
 		return
 	}
 	kind, lo, hi, lin := gwRef(dates, vals, q)
 	switch kind {
 	case "hit", "before", "after":
 		if level != lo {
-			oracleFail("gw-series:%s:%s q=%d level=%v expected=%v dates=%v vals=%v", where, kind, q, level, lo, dates, vals)
+			c20Fail("gw-series:"+where+":"+kind, "q=%d level=%v expected=%v dates=%v vals=%v", q, level, lo, dates, vals)
 		}
 	default:
 		tol := 1e-12 * (1 + math.Abs(lo) + math.Abs(hi))
 		if !finite(level) || level < lo-tol || level > hi+tol {
-			oracleFail("gw-series:%s:between-outside-interval q=%d level=%v interval=[%v,%v] dates=%v vals=%v", where, q, level, lo, hi, dates, vals)
+			c20Fail("gw-series:"+where+":between-outside-interval", "q=%d level=%v interval=[%v,%v] dates=%v vals=%v", q, level, lo, hi, dates, vals)
 		} else if math.Abs(level-lin) > 1e-9*(1+math.Abs(lo)+math.Abs(hi)) {
-			oracleFail("gw-series:%s:between-not-linear q=%d level=%v interpolant=%v dates=%v vals=%v", where, q, level, lin, dates, vals)
+			c20Fail("gw-series:"+where+":between-not-linear", "q=%d level=%v interpolant=%v dates=%v vals=%v", q, level, lin, dates, vals)
 		}
+	}
+}
+
+// at most 3 ORACLE lines per (where, kind): a broken search fails on thousands of days
+var c20Seen = map[string]int{}
+
+func c20Fail(key, format string, a ...interface{}) {
+	c20Seen[key]++
+	if c20Seen[key] <= 3 {
+		oracleFail(key+" "+format, a...)
 	}
 }
 
@@ -199,7 +211,22 @@ func c20(args []string) {
 
 // the level of the day is set at run.go:362-371, before the probe "evatra-pre" of the same day; nothing
 // else assigns GRW inside the day loop
+// tokens "@phase=<n>" of a batch line are harness metadata: the CONFIGURED GroundWaterPhase of that run
+// (config.yml or command line), against which the sinusoid is evaluated
+func c20Meta(line string) (args []string, confPhase int, havePhase bool) {
+	for _, t := range splitArgs(line) {
+		if strings.HasPrefix(t, "@phase=") {
+			confPhase, _ = strconv.Atoi(t[len("@phase="):])
+			havePhase = true
+		} else if !strings.HasPrefix(t, "@") {
+			args = append(args, t)
+		}
+	}
+	return
+}
+
 func c20TraceLine(work, line string, lineNo int) {
+	runArgs, confPhase, havePhase := c20Meta(line)
 	days := 0
 	first := true
 	var dates []int
@@ -232,14 +259,22 @@ func c20TraceLine(work, line string, lineNo int) {
 				from = "polygonfile"
 				emit(jobj{"k": "gwpoly", "line": lineNo, "grlo": g.GRLO, "grhi": g.GRHI, "gw": hx(g.GW), "ampl": hx(g.AMPL)})
 			}
-			arg := (g.TAG.Num + float64(g.GWPhase)) * math.Pi / 180
+			if !havePhase {
+				confPhase = g.GWPhase
+			}
+			// the sinusoid of the CONFIGURED phase (run.go:364)
+			arg := (g.TAG.Num + float64(confPhase)) * math.Pi / 180
 			s := math.Sin(arg)
-			emit(jobj{"k": "gwsin", "line": lineNo, "zeit": zeit, "tag": hx(g.TAG.Num), "phase": g.GWPhase, "gw": hx(g.GW), "ampl": hx(g.AMPL),
+			emit(jobj{"k": "gwsin", "line": lineNo, "zeit": zeit, "tag": hx(g.TAG.Num), "phase": confPhase, "gphase": g.GWPhase, "gw": hx(g.GW), "ampl": hx(g.AMPL),
 				"arg": hx(arg), "s": hx(s), "grw": hx(g.GRW)})
+			if expect := g.GW - (g.AMPL * s); !(math.Abs(g.GRW-expect) <= 1e-9*(1+math.Abs(g.GW)+math.Abs(g.AMPL))) {
+				c20Fail(fmt.Sprintf("gw-sinus:traced-line-%d:not-the-configured-phase", lineNo), "zeit=%d tag=%v configured-phase=%d phase-used=%d gw=%v ampl=%v grw=%v expected=%v",
+					zeit, g.TAG.Num, confPhase, g.GWPhase, g.GW, g.AMPL, g.GRW, expect)
+			}
 			lo, hi := math.Min(float64(g.GRLO), float64(g.GRHI)), math.Max(float64(g.GRLO), float64(g.GRHI))
 			tol := 1e-12 * (1 + math.Abs(lo) + math.Abs(hi))
 			if !finite(g.GRW) || g.GRW < lo-tol || g.GRW > hi+tol {
-				oracleFail("gw-sinus:traced-line-%d:outside-interval zeit=%d tag=%v grw=%v interval=[%v,%v]", lineNo, zeit, g.TAG.Num, g.GRW, lo, hi)
+				c20Fail(fmt.Sprintf("gw-sinus:traced-line-%d:outside-interval", lineNo), "zeit=%d tag=%v grw=%v interval=[%v,%v]", zeit, g.TAG.Num, g.GRW, lo, hi)
 			}
 			if !(math.Abs(s) <= 1) {
 				oracleFail("gw-sinus:traced-line-%d:sin-oracle-fact |sin(%v)| = %v > 1", lineNo, arg, s)
@@ -252,7 +287,7 @@ func c20TraceLine(work, line string, lineNo int) {
 		}
 		first = false
 	}
-	res := runProject(work, splitArgs(line))
+	res := runProject(work, runArgs)
 	hermes.VerifProbe = nil
 	if from == "gwTimeSeries" {
 		emit(jobj{"k": "gwtrace", "line": lineNo, "dates": dates, "vals": hxs(vals), "q": zeits, "level": grws})
